@@ -132,6 +132,14 @@ def roundtrip_cases(ctx):
                         {"op": "append_offsets", "offsets": [0, 0]}]
             for o in ops:
                 cases.append(dict({"fn": "empty_chunks", "n": 6, "scheme": scheme, "partition_on": part, "stream": "main"}, **o))
+    # every value KIND a caller can pass where str / bytes are expected, through each metadata entry point: exception or intact file, never a signal
+    kinds = ["bytearray", "memoryview", "np.bytes_", "np.str_", "int", "float", "None", "bool", "list", "tuple", "dict", "np.int64", "np.array",
+             "object", "str-subclass", "bytes-subclass", "set", "nested-bytearray"]
+    for entry in ("write_value", "write_key", "update_value", "update_key", "hive_value", "attrs_value", "fmd_kv"):
+        for kind in kinds:
+            if entry.endswith("_key") and kind in ("list", "dict", "set", "np.array", "nested-bytearray", "bytearray"):
+                continue                      # (unhashable: cannot be a dict key at all)
+            cases.append({"fn": "meta_value_kinds", "entry": entry, "kind": kind, "stream": "main"})
     # pinned defect (open finding, .pyx): a column name whose UTF-8 form alone exceeds the serialiser's fixed estimate
     cases.append({"fn": "nonascii_text", "path": "column_name", "chars": 100000, "stream": "confirm"})
     cases.append({"fn": "thrift_numpy_int", "stream": "confirm"})
@@ -166,7 +174,7 @@ def roundtrip_judge(ctx, cases, real):
             ctx.count("round trips not run (worker crashed too often)", 1)
             continue
         short = {"stream": "roundtrip", "fn": c["fn"], "spec": c.get("spec"), "opts": c.get("opts"), "n": c.get("n")}
-        if c["fn"] in ("mt_read", "foreign_chunk", "nonascii_text", "empty_chunks"):
+        if c["fn"] in ("mt_read", "foreign_chunk", "nonascii_text", "empty_chunks", "meta_value_kinds"):
             short = dict({k: v for k, v in c.items() if k != "stream"}, stream="roundtrip")
         ctx.case(short, trivial=c["fn"] == "rt" and c["spec"]["n"] == 0)
         ctx.count("round-trip stream outcome", r[1] if r[0] in ("ok", "exc") else r[0])
@@ -177,6 +185,8 @@ def roundtrip_judge(ctx, cases, real):
             kinds = sorted({col["kind"] for col in c["spec"]["cols"]}) if c["fn"] == "rt" else []
             cls = {"component": "roundtrip" if c["fn"] == "rt" else c["fn"], "stream": c["stream"], "kind": r[0],
                    "dpv": (c.get("opts") or c).get("dpv"), "where": _where(r[2] if len(r) > 2 else "")}
+            if c["fn"] == "meta_value_kinds":
+                cls.update({"entry": c["entry"], "value_kind": c["kind"]})
             if c["fn"] == "empty_chunks":
                 cls.update({"scheme": c["scheme"], "op": c["op"], "partition_on": bool(c.get("partition_on"))})
             if c["fn"] == "thrift_numpy_int":
